@@ -37,6 +37,11 @@ def merge (beq : Obj → Obj → Bool) (s other : Schema) : MRes Schema :=
     if (mergeObjects beq s.objects other.objects false).2 then .conflict
     else .ok { mergeEntry s other with objects := (mergeObjects beq s.objects other.objects false).1 }
 
+/-- `schema.Merge(other)` literally: the package guard in front of `merge` (in `Consolidate` the
+    guard never fires: a group holds schemas of the group's package only; `Cog/Merge/SrcEquiv.lean`) -/
+def mergeChecked (beq : Obj → Obj → Bool) (s other : Schema) : MRes Schema :=
+  if s.pkg ≠ other.pkg then .conflict else merge beq s other
+
 /-- merging a group (all of one package) into a fresh schema carrying the first input's metadata -/
 def mergeGroup (beq : Obj → Obj → Bool) : Schema → List Schema → MRes Schema
   | acc, [] => .ok acc
